@@ -1235,8 +1235,30 @@ pub fn check_cold_round(r: &Round, obs: &mut Obs) -> Result<(), Fail> {
     Ok(())
 }
 
+/// see the part `repeated_automatic_builds`
+pub fn check_repeated(bc: &BuildCase, obs: &mut Obs) -> Result<(), Fail> {
+    let first = snap_build(&bc.builder());
+    for k in 1..6 {
+        let again = snap_build(&bc.builder());
+        if again != first {
+            return fail("history_dependent:same_build_differs", format!("build number {} of the same input and options gives {:?}, the first gave {:?} ({:?})", k + 1, again, first, bc));
+        }
+    }
+    if first.kind == 0 {
+        obs.nontrivial(bc.hash() ^ 0x6666);
+    }
+    Ok(())
+}
+
 pub fn replay(_e: &Engine, case: &Value, obs: &mut Obs) -> Result<(), Fail> {
     let bad = || Fail { sig: "bad_replay".into(), msg: "cannot parse case".into() };
+    if case.get("kind").and_then(|k| k.as_str()) == Some("repeated_build") {
+        let bc = BuildCase::from_json(case).ok_or_else(bad)?;
+        for _ in 0..20 {
+            check_repeated(&bc, obs)?;
+        }
+        return Ok(());
+    }
     if case.get("kind").and_then(|k| k.as_str()) == Some("round") && case.get("cold").is_some() {
         let r = round_from(case).ok_or_else(bad)?;
         for _ in 0..12 {
@@ -1483,6 +1505,22 @@ pub fn run(e: &'static Engine) {
             jc.run_prop(4 << 20, &strat, total / shards, rhist_json, |h, o| {
                 o.label("part:renderer_histories");
                 check_rhistory(h, o)
+            });
+        }));
+    }
+    e.par(jobs);
+    // The plainest reading of the property on MANY inputs: the same fresh build six times in a row gives six identical
+    // results - automatic mask, versions 1-14 where exact penalty ties between candidates occur (a tie is where an
+    // unstable choice shows)
+    let total: u32 = e.tier.pick(6400, 96000);
+    let shards = e.tier.pick(32u32, 96);
+    let mut jobs: Vec<Job> = Vec::new();
+    for _ in 0..shards {
+        jobs.push(Box::new(move |jc: &mut JobCtx| {
+            let strat = crate::gens::auto_mask_small().prop_map(|(c, _, _)| c);
+            jc.run_prop(7 << 20, &strat, total / shards, |c| { let mut j = c.to_json(); j["kind"] = json!("repeated_build"); j }, |c, o| {
+                o.label("part:repeated_automatic_builds");
+                check_repeated(c, o)
             });
         }));
     }
